@@ -1,6 +1,8 @@
 import GomlVerif.Lemmas.C14Alpha
 import GomlVerif.Lemmas.C14Validate
 import GomlVerif.Model.Link
+import GomlVerif.Lemmas.C14Exports
+import GomlVerif.Gen.Exports
 /-!
 C14 — separate compilation is equivalent to whole-program compilation.
 
@@ -8,7 +10,8 @@ The two ways hand the same stages (mono → lift → anf → go) a Core file tha
 respects only: the packages' functions are concatenated in another order (discovery order vs
 topological order), and the temporaries of `compile_match` are numbered from another offset (one
 `Gensym` for the whole program vs one per package).  The theorems say that `Sem.run` does not see
-either difference; `validate_sound` packages both into a verified validator that the check runs on
+either difference — closures included: the values of the two runs are related (`Alpha.VRel`), their
+observable outcomes equal; `validate_sound` packages both into a verified validator that the check runs on
 the real Core of both ways.
 -/
 namespace Goml.C14
@@ -21,21 +24,30 @@ theorem run_perm_invariant (P : Prog) (fns' : List Fn) (hp : P.fns.Perm fns')
     run fuel { P with fns := fns' } entry eager = run fuel P entry eager :=
   run_perm P fns' hp hd fuel entry eager
 
-/-- **names of bound variables are irrelevant**: renaming every function of a program by its own
-    renaming `σs f` does not change `Sem.run`, provided each renaming is injective on the names its
-    function mentions (`Ns f`), every variable it moves is bound by a `let` inside the body (so it
-    is neither a parameter, nor a global, nor a builtin), and — this is the `_partial` — no function
-    body contains a closure expression (a closure value carries its body and its environment, so
-    the two runs would produce different, merely equivalent, values; that needs a relation on values
-    instead of the equality used here).  All hypotheses are decidable. -/
+/-- **names of bound variables are irrelevant, closures included**: renaming every function of a program by its
+    own renaming `σs f` does not change `Sem.run` — stdout, the way of ending and the extern events are EQUAL —
+    provided each renaming is injective on the names its function mentions (`Ns f`), every variable it moves is
+    bound by a `let` inside the body, and no closure parameter is moved (`scC`; a closure value may be applied to
+    fewer arguments than it has parameters, so a parameter is not known to be bound).  Closure expressions,
+    closure values in environments, in the `Ref` store, in data, returned, passed and called through locals
+    are all covered: the proof relates the values of the two runs by `Alpha.VRel` (a closure is related to the
+    closure whose body is the `σ`-renaming under a `σ`-renamed, value-wise related environment; stores related
+    cell by cell) instead of equating them.  All hypotheses are decidable. -/
+theorem run_alpha_invariant (P : Prog) (σs : String → String → String) (Ns : String → List String)
+    (H : HypC σs Ns P) (fuel : Nat) (entry : String) (eager : Bool) :
+    run fuel (renP σs P) entry eager = run fuel P entry eager :=
+  run_alpha_full H fuel entry eager
+
+/-- the round-1 statement (closure-free programs, `Hyp`), kept as a corollary of `run_alpha_invariant`:
+    on a closure-free body the scope check `scE` implies `scC` (`scC_of_cf`), so `Hyp` implies `HypC` -/
 theorem run_alpha_invariant_partial (P : Prog) (σs : String → String → String) (Ns : String → List String)
     (H : Hyp σs Ns P) (fuel : Nat) (entry : String) (eager : Bool) :
     run fuel (renP σs P) entry eager = run fuel P entry eager :=
-  run_alpha H fuel entry eager
+  run_alpha_invariant P σs Ns (hyp_hypC H) fuel entry eager
 
 /-- **verified validator**: if `validate σs Ns S W` accepts — every function of `S` has a twin in `W`
-    that is its `σs`-renaming (type annotations aside), `W` has no other function, the `dyn` tables
-    agree, and the hypotheses of the renaming theorem hold of `S` — then `W` and `S` run alike.
+    that is its `σs`-renaming (type annotations aside; closure expressions included), `W` has no other function,
+    the `dyn` tables agree, and the hypotheses of the renaming theorem hold of `S` — then `W` and `S` run alike.
     The check evaluates `validate` on the real linked Core (`S`) and the real whole-program Core
     (`W`) with `σs f` = the shift of `f`'s temporaries. -/
 theorem separate_eq_whole_validated (σs : String → String → String) (Ns : String → List String) (S W : Prog)
@@ -61,7 +73,51 @@ theorem check_build_same_interface (H : Link.View → Link.Hash) (s : Link.St) (
     subst h1; subst h2
     simp [Link.setIface, Link.setCore]
 
+/-! ### the link environment (`PackageExports::apply_to`, artifact.rs; `link_cores`, separate.rs; `compile`, pipeline.rs) -/
+
+/-- **`apply_to` forgets nothing** (tables regenerated from env.rs / artifact.rs): every map of `TypeEnv`, `TraitEnv`
+    and `ValueEnv` is extended by a loop of `PackageExports::apply_to`, those structs have no field that is not a
+    map, `PackageExports` has exactly the parts of `GlobalTypeEnv`, and `to_genv` clones each part into the part
+    of the same name -/
+theorem apply_to_copies_every_map :
+    (Gen.Exports.envMaps.all fun f => Gen.Exports.appliedMaps.contains f) = true ∧
+    (Gen.Exports.appliedMaps.all fun f => Gen.Exports.envMaps.contains f) = true ∧
+    Gen.Exports.envOther = [] ∧ Gen.Exports.exportsParts = Gen.Exports.genvParts ∧
+    Gen.Exports.toGenv = Gen.Exports.genvParts.map (fun p => (p, p)) := by decide
+
+/-- **an `IndexMap` rebuilt from its own entries is itself**: inserting the entries of a map with distinct keys
+    into an empty map, in their order, yields the map — what reading the exports back from the interface JSON does
+    to each of their maps (the codec of the entries themselves is validated, `exports_roundtrip` oracle, not modelled) -/
+theorem indexmap_rebuilt_from_entries (m : Exports.IMap) (hd : (m.map (·.1)).Nodup) : Exports.IMap.extend [] m = m :=
+  Exports.extend_nil_id m hd
+
+/-- **the order of the packages is irrelevant for every lookup in the link environment**: if every export map has
+    distinct keys and no two packages export the same key of the same map with different values, then the
+    environments built by `apply_to` over any two orders of the packages answer every lookup in every map alike.
+    (The whole-program way and `link_cores` use two different topological sorts; the maps' iteration order does
+    differ, which is why `implsAgree` above compares tables by lookup.)  The check evaluates both hypotheses and
+    `applyAll` on the real exports of every accepted project and compares every lookup with the real environment
+    of both ways. -/
+theorem link_env_order_irrelevant (fields : List String) (es es' : List Exports.Env) (g : Exports.Env)
+    (hp : es.Perm es') (hwf : Exports.WF es) (hc : Exports.Consistent es)
+    (f : String) (hf : fields.contains f = true) (k : String) :
+    Exports.IMap.lookup ((Exports.applyAll fields es g) f) k = Exports.IMap.lookup ((Exports.applyAll fields es' g) f) k :=
+  Exports.applyAll_perm fields es es' g hp hwf hc f hf k
+
 /-! ### non-vacuity -/
+
+/-- two packages exporting into the same two maps, applied in both orders: the iteration order of the maps
+    differs, every lookup agrees -/
+def exE1 : Exports.Env := Exports.ofList [("value_env.funcs", [("A::f", "h1"), ("A::g", "h2")]), ("type_env.enums", [("A::T", "h3")])]
+def exE2 : Exports.Env := Exports.ofList [("value_env.funcs", [("B::f", "h4")]), ("type_env.enums", [("B::U", "h5")])]
+def exG0 : Exports.Env := Exports.ofList [("value_env.funcs", [("string_println", "h0")])]
+
+example : (Exports.applyAll Gen.Exports.appliedMaps [exE1, exE2] exG0) "value_env.funcs"
+    = [("string_println", "h0"), ("A::f", "h1"), ("A::g", "h2"), ("B::f", "h4")] := by decide +kernel
+example : (Exports.applyAll Gen.Exports.appliedMaps [exE2, exE1] exG0) "value_env.funcs"
+    = [("string_println", "h0"), ("B::f", "h4"), ("A::f", "h1"), ("A::g", "h2")] := by decide +kernel
+example : Exports.IMap.lookup ((Exports.applyAll Gen.Exports.appliedMaps [exE2, exE1] exG0) "value_env.funcs") "A::g" = some "h2" := by
+  decide +kernel
 
 /-- two packages' functions in the two orders, the dependency's temporaries numbered from 0 resp. 2:
     the validator accepts, so the two programs run alike — and they print something -/
@@ -93,5 +149,65 @@ def exN (f : String) : List String :=
 
 example : validate exσ exN exS exW = true := by decide +kernel
 example : (run 100 exS).out = "42\n" ∧ (run 100 exW).out = "42\n" := by decide +kernel
+
+/-- closures: `Lib::mk` returns a closure that captures a renamed temporary and binds another one inside its
+    body; `main` stores the closure in a `Ref`, reads it back and calls it through a local -/
+def exCS : Prog :=
+  { fns := [
+      { name := "Lib::mk", generics := [], params := [("a/0", .int 32 true)], ret := .func [.int 32 true] (.int 32 true),
+        body := .letE "mtmp0" (.var "a/0" (.int 32 true))
+                  (.closure (.func [.int 32 true] (.int 32 true)) [("b/1", .int 32 true)]
+                    (.letE "x1" (.bin .add (.int 32 true) (.var "mtmp0" (.int 32 true)) (.var "b/1" (.int 32 true)))
+                      (.var "x1" (.int 32 true)))) },
+      { name := "main", generics := [], params := [], ret := .unit,
+        body := .letE "r/0" (.call .unit (.var "ref" .unit) [.call .unit (.var "Lib::mk" .unit) [.prim (.int 32 true 40)]])
+                  (.letE "f/1" (.call .unit (.var "ref_get" .unit) [.var "r/0" .unit])
+                    (.call .unit (.var "string_println" .unit)
+                      [.call .string (.var "int32_to_string" .unit)
+                        [.call (.int 32 true) (.var "f/1" .unit) [.prim (.int 32 true 2)]]])) }] }
+
+def exCW : Prog :=
+  { fns := [
+      { name := "main", generics := [], params := [], ret := .unit,
+        body := .letE "r/0" (.call .unit (.var "ref" .unit) [.call .unit (.var "Lib::mk" .unit) [.prim (.int 32 true 40)]])
+                  (.letE "f/1" (.call .unit (.var "ref_get" .unit) [.var "r/0" .unit])
+                    (.call .unit (.var "string_println" .unit)
+                      [.call .string (.var "int32_to_string" .unit)
+                        [.call (.int 32 true) (.var "f/1" .unit) [.prim (.int 32 true 2)]]])) },
+      { name := "Lib::mk", generics := [], params := [("a/0", .int 32 true)], ret := .func [.int 32 true] (.int 32 true),
+        body := .letE "mtmp3" (.var "a/0" (.int 32 true))
+                  (.closure (.func [.int 32 true] (.int 32 true)) [("b/1", .int 32 true)]
+                    (.letE "x4" (.bin .add (.int 32 true) (.var "mtmp3" (.int 32 true)) (.var "b/1" (.int 32 true)))
+                      (.var "x4" (.int 32 true)))) }] }
+
+def exCσ (f : String) : String → String :=
+  if f = "Lib::mk" then fun x => if x = "mtmp0" then "mtmp3" else if x = "x1" then "x4" else x else fun x => x
+
+def exCN (f : String) : List String :=
+  if f = "Lib::mk" then ["a/0", "mtmp0", "b/1", "x1"]
+  else ["r/0", "f/1", "ref", "ref_get", "Lib::mk", "string_println", "int32_to_string"]
+
+example : validate exCσ exCN exCS exCW = true := by decide +kernel
+example : (run 100 exCS).out = "42\n" ∧ (run 100 exCW).out = "42\n" := by decide +kernel
+/-- the renaming theorem's hypotheses hold of `exCS` (closure body binds a moved name, captures another) -/
+example : HypC exCσ exCN exCS :=
+  ⟨by decide +kernel, by decide +kernel, by decide +kernel⟩
+
+/-- the hypotheses of `link_env_order_irrelevant` hold of the two example packages -/
+example : Exports.WF [exE1, exE2] := by
+  intro e he f
+  simp only [List.mem_cons, List.not_mem_nil, or_false] at he
+  rcases he with rfl | rfl
+  · exact Exports.wf_ofList _ (by decide) f
+  · exact Exports.wf_ofList _ (by decide) f
+
+example : Exports.Consistent [exE1, exE2] := by
+  intro e1 h1 e2 h2 f k v1 v2 l1 l2
+  simp only [List.mem_cons, List.not_mem_nil, or_false] at h1 h2
+  rcases h1 with rfl | rfl <;> rcases h2 with rfl | rfl
+  · rw [l1] at l2; injection l2
+  · exact Exports.consistent_pair _ _ (by decide) f k v1 v2 l1 l2
+  · exact Exports.consistent_pair _ _ (by decide) f k v1 v2 l1 l2
+  · rw [l1] at l2; injection l2
 
 end Goml.C14
